@@ -11,7 +11,6 @@ import (
 	"net/http/httptest"
 	"os"
 	"os/exec"
-	"sort"
 	"strconv"
 	"strings"
 	"testing"
@@ -396,22 +395,24 @@ func TestC14(t *testing.T) {
 	)
 
 	for i := 0; i < nOrders; i++ {
-		l := 1 + e.Rng.Intn(7)
-		order := make([]int, l)
+		var (
+			order  []int
+			groups []int
+		)
 
-		for j := range order {
-			order[j] = e.Rng.Intn(len(tyPool))
-		}
+		// rounds of four: a random order; the same set in the opposite order with one repeat (order and repetition
+		// independence on the implementation's own observations); the previous order through multi-argument calls;
+		// the first order with one more type in front ("changes when a type is added")
+		switch {
+		case i%4 == 1 && len(prevOrder) > 0:
+			for j := len(prevOrder) - 1; j >= 0; j-- {
+				order = append(order, prevOrder[j])
+			}
 
-		if i%3 == 0 { // a permutation of the previous set with repeats
-			sort.Ints(order)
-			order = append(order, order[0])
-		}
+			order = append(order, prevOrder[e.Rng.Intn(len(prevOrder))])
 
-		// every second order repeats the previous one, registered through multi-argument GobRegister calls
-		var groups []int
-
-		if i%2 == 1 {
+			cf.Count("hash_orders_reversed", 1)
+		case i%4 == 2 && len(prevOrder) > 0:
 			order = prevOrder
 
 			for left := len(order); left > 0; {
@@ -425,6 +426,36 @@ func TestC14(t *testing.T) {
 			}
 
 			cf.Count("hash_orders_grouped", 1)
+		case i%4 == 3 && len(prevOrder) > 0:
+			in := map[int]bool{}
+			for _, o := range prevOrder {
+				in[o] = true
+			}
+
+			var free []int
+
+			for o := range tyPool {
+				if !in[o] {
+					free = append(free, o)
+				}
+			}
+
+			if len(free) > 0 {
+				order = append([]int{free[e.Rng.Intn(len(free))]}, prevOrder...)
+
+				cf.Count("hash_orders_extended", 1)
+
+				break
+			}
+
+			fallthrough
+		default:
+			l := 1 + e.Rng.Intn(7)
+			order = make([]int, l)
+
+			for j := range order {
+				order[j] = e.Rng.Intn(len(tyPool))
+			}
 		}
 
 		prevOrder = order
